@@ -121,14 +121,30 @@ func gBit[T integer](p *T, m T, and bool, real func() T) (old T) {
 	return *p
 }
 
-func AndInt32(p *int32, m int32) int32     { return gBit(p, m, true, func() int32 { return atomic.AndInt32(p, m) }) }
-func AndUint32(p *uint32, m uint32) uint32 { return gBit(p, m, true, func() uint32 { return atomic.AndUint32(p, m) }) }
-func AndInt64(p *int64, m int64) int64     { return gBit(p, m, true, func() int64 { return atomic.AndInt64(p, m) }) }
-func AndUint64(p *uint64, m uint64) uint64 { return gBit(p, m, true, func() uint64 { return atomic.AndUint64(p, m) }) }
-func OrInt32(p *int32, m int32) int32      { return gBit(p, m, false, func() int32 { return atomic.OrInt32(p, m) }) }
-func OrUint32(p *uint32, m uint32) uint32  { return gBit(p, m, false, func() uint32 { return atomic.OrUint32(p, m) }) }
-func OrInt64(p *int64, m int64) int64      { return gBit(p, m, false, func() int64 { return atomic.OrInt64(p, m) }) }
-func OrUint64(p *uint64, m uint64) uint64  { return gBit(p, m, false, func() uint64 { return atomic.OrUint64(p, m) }) }
+func AndInt32(p *int32, m int32) int32 {
+	return gBit(p, m, true, func() int32 { return atomic.AndInt32(p, m) })
+}
+func AndUint32(p *uint32, m uint32) uint32 {
+	return gBit(p, m, true, func() uint32 { return atomic.AndUint32(p, m) })
+}
+func AndInt64(p *int64, m int64) int64 {
+	return gBit(p, m, true, func() int64 { return atomic.AndInt64(p, m) })
+}
+func AndUint64(p *uint64, m uint64) uint64 {
+	return gBit(p, m, true, func() uint64 { return atomic.AndUint64(p, m) })
+}
+func OrInt32(p *int32, m int32) int32 {
+	return gBit(p, m, false, func() int32 { return atomic.OrInt32(p, m) })
+}
+func OrUint32(p *uint32, m uint32) uint32 {
+	return gBit(p, m, false, func() uint32 { return atomic.OrUint32(p, m) })
+}
+func OrInt64(p *int64, m int64) int64 {
+	return gBit(p, m, false, func() int64 { return atomic.OrInt64(p, m) })
+}
+func OrUint64(p *uint64, m uint64) uint64 {
+	return gBit(p, m, false, func() uint64 { return atomic.OrUint64(p, m) })
+}
 
 func gSwap[T any](p *T, v T, real func() T) (r T) {
 	if sched() {
@@ -159,30 +175,48 @@ func gCAS[T comparable](p *T, old, new T, real func() bool) (ok bool) {
 	return false
 }
 
-func LoadInt32(p *int32) int32     { return gLoad(p, func() int32 { return atomic.LoadInt32(p) }) }
-func LoadInt64(p *int64) int64     { return gLoad(p, func() int64 { return atomic.LoadInt64(p) }) }
-func LoadUint32(p *uint32) uint32  { return gLoad(p, func() uint32 { return atomic.LoadUint32(p) }) }
-func LoadUint64(p *uint64) uint64  { return gLoad(p, func() uint64 { return atomic.LoadUint64(p) }) }
-func LoadUintptr(p *uintptr) uintptr { return gLoad(p, func() uintptr { return atomic.LoadUintptr(p) }) }
+func LoadInt32(p *int32) int32    { return gLoad(p, func() int32 { return atomic.LoadInt32(p) }) }
+func LoadInt64(p *int64) int64    { return gLoad(p, func() int64 { return atomic.LoadInt64(p) }) }
+func LoadUint32(p *uint32) uint32 { return gLoad(p, func() uint32 { return atomic.LoadUint32(p) }) }
+func LoadUint64(p *uint64) uint64 { return gLoad(p, func() uint64 { return atomic.LoadUint64(p) }) }
+func LoadUintptr(p *uintptr) uintptr {
+	return gLoad(p, func() uintptr { return atomic.LoadUintptr(p) })
+}
 
-func StoreInt32(p *int32, v int32)     { gStore(p, v, func() { atomic.StoreInt32(p, v) }) }
-func StoreInt64(p *int64, v int64)     { gStore(p, v, func() { atomic.StoreInt64(p, v) }) }
-func StoreUint32(p *uint32, v uint32)  { gStore(p, v, func() { atomic.StoreUint32(p, v) }) }
-func StoreUint64(p *uint64, v uint64)  { gStore(p, v, func() { atomic.StoreUint64(p, v) }) }
+func StoreInt32(p *int32, v int32)       { gStore(p, v, func() { atomic.StoreInt32(p, v) }) }
+func StoreInt64(p *int64, v int64)       { gStore(p, v, func() { atomic.StoreInt64(p, v) }) }
+func StoreUint32(p *uint32, v uint32)    { gStore(p, v, func() { atomic.StoreUint32(p, v) }) }
+func StoreUint64(p *uint64, v uint64)    { gStore(p, v, func() { atomic.StoreUint64(p, v) }) }
 func StoreUintptr(p *uintptr, v uintptr) { gStore(p, v, func() { atomic.StoreUintptr(p, v) }) }
 
-func AddInt32(p *int32, d int32) int32     { return gAdd(p, d, func() int32 { return atomic.AddInt32(p, d) }) }
-func AddInt64(p *int64, d int64) int64     { return gAdd(p, d, func() int64 { return atomic.AddInt64(p, d) }) }
-func AddUint32(p *uint32, d uint32) uint32 { return gAdd(p, d, func() uint32 { return atomic.AddUint32(p, d) }) }
-func AddUint64(p *uint64, d uint64) uint64 { return gAdd(p, d, func() uint64 { return atomic.AddUint64(p, d) }) }
+func AddInt32(p *int32, d int32) int32 {
+	return gAdd(p, d, func() int32 { return atomic.AddInt32(p, d) })
+}
+func AddInt64(p *int64, d int64) int64 {
+	return gAdd(p, d, func() int64 { return atomic.AddInt64(p, d) })
+}
+func AddUint32(p *uint32, d uint32) uint32 {
+	return gAdd(p, d, func() uint32 { return atomic.AddUint32(p, d) })
+}
+func AddUint64(p *uint64, d uint64) uint64 {
+	return gAdd(p, d, func() uint64 { return atomic.AddUint64(p, d) })
+}
 func AddUintptr(p *uintptr, d uintptr) uintptr {
 	return gAdd(p, d, func() uintptr { return atomic.AddUintptr(p, d) })
 }
 
-func SwapInt32(p *int32, v int32) int32     { return gSwap(p, v, func() int32 { return atomic.SwapInt32(p, v) }) }
-func SwapInt64(p *int64, v int64) int64     { return gSwap(p, v, func() int64 { return atomic.SwapInt64(p, v) }) }
-func SwapUint32(p *uint32, v uint32) uint32 { return gSwap(p, v, func() uint32 { return atomic.SwapUint32(p, v) }) }
-func SwapUint64(p *uint64, v uint64) uint64 { return gSwap(p, v, func() uint64 { return atomic.SwapUint64(p, v) }) }
+func SwapInt32(p *int32, v int32) int32 {
+	return gSwap(p, v, func() int32 { return atomic.SwapInt32(p, v) })
+}
+func SwapInt64(p *int64, v int64) int64 {
+	return gSwap(p, v, func() int64 { return atomic.SwapInt64(p, v) })
+}
+func SwapUint32(p *uint32, v uint32) uint32 {
+	return gSwap(p, v, func() uint32 { return atomic.SwapUint32(p, v) })
+}
+func SwapUint64(p *uint64, v uint64) uint64 {
+	return gSwap(p, v, func() uint64 { return atomic.SwapUint64(p, v) })
+}
 
 func CompareAndSwapInt32(p *int32, o, n int32) bool {
 	return gCAS(p, o, n, func() bool { return atomic.CompareAndSwapInt32(p, o, n) })
@@ -228,52 +262,52 @@ type Int32 struct {
 	v int32
 }
 
-func (x *Int32) Load() int32                     { return LoadInt32(&x.v) }
-func (x *Int32) Store(v int32)                   { StoreInt32(&x.v, v) }
-func (x *Int32) Swap(v int32) int32              { return SwapInt32(&x.v, v) }
-func (x *Int32) Add(d int32) int32               { return AddInt32(&x.v, d) }
-func (x *Int32) And(m int32) int32 { return AndInt32(&x.v, m) }
-func (x *Int32) Or(m int32) int32  { return OrInt32(&x.v, m) }
-func (x *Int32) CompareAndSwap(o, n int32) bool  { return CompareAndSwapInt32(&x.v, o, n) }
+func (x *Int32) Load() int32                    { return LoadInt32(&x.v) }
+func (x *Int32) Store(v int32)                  { StoreInt32(&x.v, v) }
+func (x *Int32) Swap(v int32) int32             { return SwapInt32(&x.v, v) }
+func (x *Int32) Add(d int32) int32              { return AddInt32(&x.v, d) }
+func (x *Int32) And(m int32) int32              { return AndInt32(&x.v, m) }
+func (x *Int32) Or(m int32) int32               { return OrInt32(&x.v, m) }
+func (x *Int32) CompareAndSwap(o, n int32) bool { return CompareAndSwapInt32(&x.v, o, n) }
 
 type Int64 struct {
 	_ noCopy
 	v int64
 }
 
-func (x *Int64) Load() int64                     { return LoadInt64(&x.v) }
-func (x *Int64) Store(v int64)                   { StoreInt64(&x.v, v) }
-func (x *Int64) Swap(v int64) int64              { return SwapInt64(&x.v, v) }
-func (x *Int64) Add(d int64) int64               { return AddInt64(&x.v, d) }
-func (x *Int64) And(m int64) int64 { return AndInt64(&x.v, m) }
-func (x *Int64) Or(m int64) int64  { return OrInt64(&x.v, m) }
-func (x *Int64) CompareAndSwap(o, n int64) bool  { return CompareAndSwapInt64(&x.v, o, n) }
+func (x *Int64) Load() int64                    { return LoadInt64(&x.v) }
+func (x *Int64) Store(v int64)                  { StoreInt64(&x.v, v) }
+func (x *Int64) Swap(v int64) int64             { return SwapInt64(&x.v, v) }
+func (x *Int64) Add(d int64) int64              { return AddInt64(&x.v, d) }
+func (x *Int64) And(m int64) int64              { return AndInt64(&x.v, m) }
+func (x *Int64) Or(m int64) int64               { return OrInt64(&x.v, m) }
+func (x *Int64) CompareAndSwap(o, n int64) bool { return CompareAndSwapInt64(&x.v, o, n) }
 
 type Uint32 struct {
 	_ noCopy
 	v uint32
 }
 
-func (x *Uint32) Load() uint32                     { return LoadUint32(&x.v) }
-func (x *Uint32) Store(v uint32)                   { StoreUint32(&x.v, v) }
-func (x *Uint32) Swap(v uint32) uint32             { return SwapUint32(&x.v, v) }
-func (x *Uint32) Add(d uint32) uint32              { return AddUint32(&x.v, d) }
-func (x *Uint32) And(m uint32) uint32 { return AndUint32(&x.v, m) }
-func (x *Uint32) Or(m uint32) uint32  { return OrUint32(&x.v, m) }
-func (x *Uint32) CompareAndSwap(o, n uint32) bool  { return CompareAndSwapUint32(&x.v, o, n) }
+func (x *Uint32) Load() uint32                    { return LoadUint32(&x.v) }
+func (x *Uint32) Store(v uint32)                  { StoreUint32(&x.v, v) }
+func (x *Uint32) Swap(v uint32) uint32            { return SwapUint32(&x.v, v) }
+func (x *Uint32) Add(d uint32) uint32             { return AddUint32(&x.v, d) }
+func (x *Uint32) And(m uint32) uint32             { return AndUint32(&x.v, m) }
+func (x *Uint32) Or(m uint32) uint32              { return OrUint32(&x.v, m) }
+func (x *Uint32) CompareAndSwap(o, n uint32) bool { return CompareAndSwapUint32(&x.v, o, n) }
 
 type Uint64 struct {
 	_ noCopy
 	v uint64
 }
 
-func (x *Uint64) Load() uint64                     { return LoadUint64(&x.v) }
-func (x *Uint64) Store(v uint64)                   { StoreUint64(&x.v, v) }
-func (x *Uint64) Swap(v uint64) uint64             { return SwapUint64(&x.v, v) }
-func (x *Uint64) Add(d uint64) uint64              { return AddUint64(&x.v, d) }
-func (x *Uint64) And(m uint64) uint64 { return AndUint64(&x.v, m) }
-func (x *Uint64) Or(m uint64) uint64  { return OrUint64(&x.v, m) }
-func (x *Uint64) CompareAndSwap(o, n uint64) bool  { return CompareAndSwapUint64(&x.v, o, n) }
+func (x *Uint64) Load() uint64                    { return LoadUint64(&x.v) }
+func (x *Uint64) Store(v uint64)                  { StoreUint64(&x.v, v) }
+func (x *Uint64) Swap(v uint64) uint64            { return SwapUint64(&x.v, v) }
+func (x *Uint64) Add(d uint64) uint64             { return AddUint64(&x.v, d) }
+func (x *Uint64) And(m uint64) uint64             { return AndUint64(&x.v, m) }
+func (x *Uint64) Or(m uint64) uint64              { return OrUint64(&x.v, m) }
+func (x *Uint64) CompareAndSwap(o, n uint64) bool { return CompareAndSwapUint64(&x.v, o, n) }
 
 // Pointer mirrors atomic.Pointer[T].
 type Pointer[T any] struct {
